@@ -118,7 +118,7 @@ pub fn gen_overflow_rows(src: &mut Src<'_>, labels: &mut Vec<String>) -> Vec<Row
     p.into_iter().map(|i| rows[i]).collect()
 }
 
-fn gen_case(env: &Env, src: &mut Src<'_>) -> GenCase {
+pub fn gen_case(env: &Env, src: &mut Src<'_>) -> GenCase {
     let mut labels = vec![];
     let thorough = env.thorough();
     let shards = src.pick(&[1usize, 2, 3, 5, 1, 2]);
@@ -281,7 +281,7 @@ pub fn check_honest(env: &Env, case: &GenCase) -> CaseResult {
     })
 }
 
-fn honest(env: &Env, src: &mut Src<'_>) -> CaseResult {
+pub fn honest(env: &Env, src: &mut Src<'_>) -> CaseResult {
     let case = gen_case(env, src);
     check_honest(env, &case)
 }
